@@ -1,5 +1,8 @@
 """C09 - Sampling contract: which states are recorded, when, and in what shape."""
+import json
 import random
+
+import numpy as np
 
 from .. import engine_hist as H
 from .. import engine_val
@@ -203,10 +206,107 @@ def run(tier, selftest=False, only=None):
         hs = [sampling_history(rng, "c%d" % i) for i in range(n)]
         H.check_histories(rep, hs, "sampling")
         rep.extra["scripts"] = n
+    if sel("script-histories"):
+        script_history_checks(rep, tier, seed, random.Random(seed * 31 + 909))
     if selftest:
         from . import c10
         c10.self_test(rep)
     return rep.finish()
+
+
+# ---- histories of one script object (specs/ScriptEdit.tla): TLC generates setter sequences, the object is driven along them ----
+def script_history_checks(rep, tier, seed, rng):
+    from strengths import (RDNetwork, RDScript, RDSystem, Species, UnitArray, UnitValue, UnitsSystem, rdscript_from_dict, rdscript_to_dict)
+    depth = 4 if tier == "quick" else 5
+    tlc.write_cfg("MC_ScriptEdit_d", open(tlc.workdir() + "/MC_ScriptEdit.cfg").read().replace("Depth = 3", "Depth = %d" % depth))
+    r = tlc.run("MC_ScriptEdit", cfg="MC_ScriptEdit_d", timeout=3000, heap="8g")
+    rep.add_tlc("MC_ScriptEdit (every history of %d setter calls on one script object)" % depth, r)
+    if not r.ok:
+        if r.violated:
+            rep.violation("model", "model:scriptedit:" + r.violated, {"tlc": r.tail(30)})
+        else:
+            raise MachineryError("TLC failed: %s\n%s" % (r.error, r.tail(20)))
+    want, tmo = (1500, 40) if tier == "quick" else (20000, 240)
+    lines, st = tlc.stream("MC_ScriptEdit", "Gen_ScriptEdit", want, seed=seed * 5 + 2, simulate_depth=16, timeout=tmo)
+    if st["error"]:
+        raise MachineryError("TLC generator failed: %s\n%s" % (st["error"], "\n".join(st["other_tail"])))
+    if len(lines) < want // 10:
+        raise MachineryError("TLC generated only %d script histories" % len(lines))
+    system = RDSystem(network=RDNetwork(species=[Species(label="A", density=1)], reactions=[]))
+    ops = {}
+
+    def observe(sc):
+        return {"ts": [float(v) for v in sc.t_sample.convert("ms").value], "tmax": float(sc.t_max.convert("ms").value),
+                "dt": float(sc.time_step.convert("ms").value), "interval": float(sc.sampling_interval.convert("ms").value),
+                "policy": sc.sampling_policy, "tunit": sc.units_system["time"]}
+
+    def same(got, st_):
+        cl = lambda a, b: a == b or abs(a - b) <= 1e-12 * max(abs(a), abs(b))
+        return (len(got["ts"]) == len(st_["ts"]) and all(cl(a, float(b)) for a, b in zip(got["ts"], st_["ts"])) and cl(got["tmax"], float(st_["tmax"]))
+                and cl(got["dt"], float(st_["dt"])) and cl(got["interval"], float(st_["interval"])) and got["policy"] == st_["policy"]
+                and got["tunit"] == st_["tunit"])
+
+    def quantity(v, u, array=False):
+        if u == "bare":
+            return rng.choice([list(v), np.array(v, dtype=float)]) if array else rng.choice([v, float(v)])
+        if array:
+            return UnitArray([float(x) for x in v], u)
+        return rng.choice([UnitValue(v, u), "%d %s" % (v, u)])
+
+    for l in lines:
+        prog = json.loads(tlc.unquote_tla_json(l))
+        hist = [(x["op"], x["args"]) for x in prog["steps"]]
+        rep.case({"script-history": hist, "tunit0": prog["tunit0"]})
+        tag = {"initial_time_unit": prog["tunit0"], "history": hist}
+        with rep.guard("script-history", tag):
+            sc = RDScript(system=system, t_sample=[0, 1], time_step=UnitValue(1, "ms"), sampling_interval=UnitValue(1, "s"),
+                          units_system=UnitsSystem(time=prog["tunit0"]))
+            kept = []
+            for k, st_ in enumerate(prog["steps"]):
+                op, a = st_["op"], st_["args"]
+                ops[op] = ops.get(op, 0) + 1
+                try:
+                    if op == "set_t_sample":
+                        sc.t_sample = quantity(a["l"], a["u"], array=True)
+                    elif op == "set_t_max":
+                        sc.t_max = quantity(a["v"], a["u"])
+                    elif op == "set_t_max_default":
+                        sc.t_max = "default"
+                    elif op == "set_dt":
+                        sc.time_step = quantity(a["v"], a["u"])
+                    elif op == "set_interval":
+                        sc.sampling_interval = quantity(a["v"], a["u"])
+                    elif op == "set_policy":
+                        sc.sampling_policy = a["p"]
+                    elif op == "set_units":
+                        sc.units_system = rng.choice([UnitsSystem(time=a["u"]), {"time": a["u"]}])
+                    elif op == "copy":
+                        kept.append((sc, k, prog["steps"][k - 1] if k else None))
+                        sc = sc.copy()
+                    elif op == "roundtrip":
+                        sc = rdscript_from_dict(json.loads(json.dumps(rdscript_to_dict(sc))))
+                    else:
+                        raise MachineryError("unknown operation in a generated script history: %r" % op)
+                    got = observe(sc)
+                except MachineryError:
+                    raise
+                except Exception as ex:  # noqa
+                    rep.violation("script-history", "script:history:exception:" + op, dict(tag, step=k + 1, exc=repr(ex)[:200]))
+                    break
+                if not same(got, st_):
+                    rep.violation("script-history", "script:history:" + op, dict(tag, step=k + 1, got=got,
+                                                                               spec={q: st_[q] for q in ("ts", "tmax", "dt", "interval", "policy", "tunit")}))
+                    break
+            else:
+                for orig, k, st_ in kept:
+                    if st_ is not None and not same(observe(orig), st_):
+                        rep.violation("script-history", "script:history:original-changed-after-copy", dict(tag, step=k + 1))
+                        break
+    rep.extra["script_histories_replayed"] = len(lines)
+    rep.extra["script_history_calls_by_kind"] = ops
+    missing = {"set_t_sample", "set_t_max", "set_t_max_default", "set_dt", "set_interval", "set_policy", "set_units", "copy", "roundtrip"} - set(ops)
+    if missing:
+        raise MachineryError("generated script histories never contain: %s" % sorted(missing))
 
 
 def replay(rp):
